@@ -25,6 +25,10 @@ const c07FindingEP = "deleted-entrypoint"
 // level (see /verif/replays/C07/finding_vacuum-entrypoint-level.json).
 const c07FindingVac = "vacuum-entrypoint-level"
 
+// c07FindingPrune: Index.Add prunes a full neighbour list with selectNeighbors on an UNSORTED candidate list
+// (see /verif/replays/C07/finding_add-prune-unsorted.json).
+const c07FindingPrune = "add-prune-unsorted"
+
 // c07IsHarnessError: messages starting with "harness:" report that the harness itself could not do
 // its work (engine would not open, ...); they make the run inconclusive, never a violation.
 func c07IsHarnessError(msg string) bool { return strings.Contains(msg, "harness: ") }
@@ -99,6 +103,50 @@ func (g *c07Graph) epDead() bool {
 	}
 	n := g.Nodes[g.EP]
 	return n != nil && n.Deleted.Load()
+}
+
+// connectivity (debug aid): how many live nodes a level-0 breadth-first walk from the entry point reaches,
+// walking through soft-deleted nodes as the search does.
+func (g *c07Graph) connectivity() string {
+	seen := map[uint32]bool{g.EP: true}
+	queue := []uint32{g.EP}
+	liveReached, degSum, degLive := 0, 0, 0
+	for len(queue) > 0 {
+		id := queue[0]
+		queue = queue[1:]
+		n := g.Nodes[id]
+		if n == nil {
+			continue
+		}
+		if !n.Deleted.Load() {
+			liveReached++
+		}
+		if len(n.Connections) == 0 {
+			continue
+		}
+		for _, nb := range n.Connections[0] {
+			if !seen[nb] {
+				seen[nb] = true
+				queue = append(queue, nb)
+			}
+		}
+	}
+	levels := map[int]int{}
+	for _, n := range g.Nodes {
+		if n == nil || n.Deleted.Load() {
+			continue
+		}
+		levels[len(n.Connections)-1]++
+		if len(n.Connections) > 0 {
+			degSum += len(n.Connections[0])
+			for _, nb := range n.Connections[0] {
+				if t := g.Nodes[nb]; t != nil && !t.Deleted.Load() {
+					degLive++
+				}
+			}
+		}
+	}
+	return fmt.Sprintf("live=%d dead=%d ep=%d epDead=%v maxLevel=%d reachable-live=%d avg-deg0=%.1f avg-live-deg0=%.1f levels=%v", g.Live, g.Dead, g.EP, g.epDead(), g.MaxLevel, liveReached, float64(degSum)/float64(max(1, g.Live)), float64(degLive)/float64(max(1, g.Live)), levels)
 }
 
 // structural invariants named by the property's anchors: per node and level at most M (2*M at
